@@ -71,3 +71,89 @@ CASES += [
  dict(id='queens-dup-diag', kind='silent', file=Q, old='    for i in 1..n {\n        write!(writer, "[")?;\n        for j in 0..(n - i) {\n            write!(writer, "v_{},", (i * n) + (j * (n + 1)))?;', new='    for i in 0..n {\n        write!(writer, "[")?;\n        for j in 0..(n - i) {\n            write!(writer, "v_{},", (i * n) + (j * (n + 1)))?;', checks=['C15']),
  dict(id='queens-commute-index', kind='silent', file=Q, old='write!(writer, "v_{},", i + j * n)?;', new='write!(writer, "v_{},", n * j + i)?;', checks=['C15']),
 ]
+
+ALL = ['C01', 'C02', 'C03', 'C04', 'C05', 'C06', 'C07', 'C08', 'C09', 'C10', 'C11', 'C12', 'C13', 'C14', 'C15', 'C16', 'C18', 'C19', 'C20']
+CASES += [
+ dict(id='s-unrelated-fn', kind='silent', file=B, old='    pub fn is_true(&self) -> bool {', new='    pub fn is_leaf(&self) -> bool {\n        !self.is_choice()\n    }\n\n    pub fn is_true(&self) -> bool {', checks=ALL),
+ dict(id='s-rename-params', kind='silent', file=B, old='''    pub fn nand(&self, a: Rc<BDD<S>>, b: Rc<BDD<S>>) -> Rc<BDD<S>> {
+        self.not(self.and(a, b))''', new='''    pub fn nand(&self, lhs: Rc<BDD<S>>, rhs: Rc<BDD<S>>) -> Rc<BDD<S>> {
+        self.not(self.and(lhs, rhs))''', checks=['C01', 'C03', 'C12', 'C13']),
+ dict(id='s-keyword-arm-order', kind='silent', file=P, old='''                    "false" => result.push(SymbolicBDDToken::False),
+                    "true" => result.push(SymbolicBDDToken::True),''', new='''                    "true" => result.push(SymbolicBDDToken::True),
+                    "false" => result.push(SymbolicBDDToken::False),''', checks=['C01', 'C08', 'C11', 'C12']),
+ dict(id='s-print-order', kind='silent', file=M, old='''    if args.truthtable {
+        print_header(&headers, &widths);''', new='''    let show_table = args.truthtable;
+    if show_table {
+        print_header(&headers, &widths);''', checks=['C10', 'C07', 'C12', 'C11']),
+ dict(id='s-true-branch-first', kind='silent', file=M, old='''            // first visit the false subtree
+            let mut r_vars = vars.clone();
+            r_vars[parsed.to_free_index(s)] = TruthTableEntry::False;
+            print_truth_table_recursive(r, r_vars, filter, parsed, sizes);
+
+            // then visit the true subtree
+            let mut l_vars = vars;
+            l_vars[parsed.to_free_index(s)] = TruthTableEntry::True;
+            print_truth_table_recursive(l, l_vars, filter, parsed, sizes);''', new='''            // first visit the true subtree
+            let mut l_vars = vars.clone();
+            l_vars[parsed.to_free_index(s)] = TruthTableEntry::True;
+            print_truth_table_recursive(l, l_vars, filter, parsed, sizes);
+
+            // then visit the false subtree
+            let mut r_vars = vars;
+            r_vars[parsed.to_free_index(s)] = TruthTableEntry::False;
+            print_truth_table_recursive(r, r_vars, filter, parsed, sizes);''', checks=['C10', 'C12']),
+ dict(id='s-exists-split-first', kind='silent', file=B, old='''        if s.is_empty() {
+            b
+        } else {
+            let first = &s[0];
+            let remainder = s[1..].to_vec();
+
+            self.exists_impl(first, self.exists(remainder, b))
+        }''', new='''        match s.split_first() {
+            None => b,
+            Some((first, remainder)) => self.exists_impl(first, self.exists(remainder.to_vec(), b)),
+        }''', checks=['C01', 'C04', 'C09', 'C12', 'C13']),
+ dict(id='s-cmp_count-split-first', kind='silent', file=B, old='''        if branches.is_empty() {
+            self.mk_const(cmp(n))
+        } else {
+            let first = &branches[0];
+            let remainder = branches[1..].to_vec();
+
+            self.ite(
+                Rc::clone(first),
+                self.cmp_count(&remainder, n - 1, cmp),
+                self.cmp_count(&remainder, n, cmp),
+            )
+        }''', new='''        if let Some((first, remainder)) = branches.split_first() {
+            self.ite(
+                Rc::clone(first),
+                self.cmp_count(remainder, n - 1, cmp),
+                self.cmp_count(remainder, n, cmp),
+            )
+        } else {
+            self.mk_const(cmp(n))
+        }''', checks=['C01', 'C05', 'C12', 'C02']),
+ dict(id='s-eval-env-binding', kind='silent', file=P, old='''            SymbolicBDD::Not(b) => self.env.not(self.eval_recursive(b)),''', new='''            SymbolicBDD::Not(b) => {
+                let inner = self.eval_recursive(b);
+                self.env.not(inner)
+            }''', checks=['C01', 'C06', 'C12']),
+ dict(id='s-expect-message', kind='silent', file=B, old='"Subtree not found in this BDD, make sure to initialize the data structure correctly"', new='"subtree is not in the lookup table"', checks=['C12', 'C13', 'C02']),
+ dict(id='s-set-union-inline', kind='silent', file=S, old='''        let _self = self.bdd.borrow().clone();
+        let _other = other.bdd.borrow().clone();
+        self.bdd.replace(self.env.or(_self, _other));
+        self''', new='''        let merged = {
+            let mine = self.bdd.borrow().clone();
+            let theirs = other.bdd.borrow().clone();
+            self.env.or(mine, theirs)
+        };
+        self.bdd.replace(merged);
+        self''', checks=['C19', 'C12', 'C13']),
+ dict(id='s-clique-ne-refs', kind='silent', file=C, old='            if v1 != v2 {\n                if is_undirected {', new='            if v2 != v1 {\n                if is_undirected {', checks=['C16']),
+ dict(id='s-graph-rename', kind='silent', file=G, old='    if let Some(edges) = edges.get(0..num_edges) {\n        Ok(edges.to_vec())', new='    if let Some(chosen) = edges.get(0..num_edges) {\n        Ok(chosen.to_vec())', checks=['C18']),
+ dict(id='s-retain-match-filter', kind='silent', file=B, old='''                            if left.is_true() != filter.is_true() {
+                                // omit choice
+                                eprintln!("omitted choice {symbol}");
+                                right''', new='''                            if filter.is_true() != left.is_true() {
+                                // omit choice
+                                right''', checks=['C20', 'C12', 'C13']),
+]
